@@ -271,7 +271,9 @@ pub fn execute(sc: &Scenario, job: &Job, case: u64) -> Execution {
     let cfg = job.run_cfg(case, job.engine == Engine::E2);
     // the child must exist before its layout can be read; creating it up front is part of setup
     #[cfg(prometheus_verif)]
-    let layout = if job.engine == Engine::E2 && !sc.in_vec {
+    // (for a vector child this creates the child up front on every other case, which trades the creation race
+    // for trace monitoring of that case)
+    let layout = if job.engine == Engine::E2 && (!sc.in_vec || case % 2 == 0) {
         let l = world.handle().verif_layout();
         Some(crate::hb::Layout {
             shard_and_count: l.shard_and_count,
